@@ -19,8 +19,15 @@ trap cleanup EXIT
 if ! git -C $WT apply $DIFF 2>/dev/null; then
   BASE=$(python3 -c "import json; print(json.load(open('$(dirname $DIFF)/meta.json')).get('base_commit',''))" 2>/dev/null)
   [ -n "$BASE" ] || { echo "patch does not apply"; exit 3; }
-  echo "patch does not apply to HEAD; using the commit it was written against ($BASE)"
-  git -C $WT checkout -q --detach $BASE && git -C $WT apply $DIFF || { echo "patch does not apply"; exit 3; }
+  # the newest commit of the repository to which the change still applies (a base that predates later fixes
+  # shows the defects those fixes repaired, which says nothing about the change)
+  OK=""
+  for C in $(git -C /repo rev-list HEAD ^$BASE) $BASE; do
+    git -C $WT checkout -q --detach $C && git -C $WT apply --check $DIFF 2>/dev/null && { OK=$C; break; }
+  done
+  [ -n "$OK" ] || { echo "patch does not apply"; exit 3; }
+  echo "patch does not apply to HEAD; using $OK (written against $BASE)"
+  git -C $WT apply $DIFF || exit 3
 fi
 ( cd $WT/v4 && export GOCACHE=$SCRATCH_CACHE && go build ./... && go test -vet=off -count=1 ./... 2>&1 | tail -6 ) > /tmp/benignrun.$$ 2>&1
 grep -q "FAIL\|cannot\|error" /tmp/benignrun.$$ && { echo "suite with change: FAIL"; cat /tmp/benignrun.$$; exit 3; } || echo "suite with change: PASS"
